@@ -1,6 +1,7 @@
 CONSTANTS NTests = 2 Deviations = {"AfterTestClearsDebug"} PreChoices = {"none"}
 CONSTANTS OptUniverse = {"gc", "G", "A", "D", "x", "buffer"}
 CONSTANTS PreDebugChoices = {{}, {"DEBUG_UNCOLLECTABLE"}, {"DEBUG_SAVEALL"}, {"DEBUG_STATS"}, {"DEBUG_UNCOLLECTABLE", "DEBUG_STATS"}, {"DEBUG_SAVEALL", "DEBUG_STATS"}, {"DEBUG_UNCOLLECTABLE", "DEBUG_SAVEALL", "DEBUG_STATS"}} GChoices = {{"DEBUG_UNCOLLECTABLE"}, {"DEBUG_SAVEALL"}, {"DEBUG_UNCOLLECTABLE", "DEBUG_SAVEALL"}} V4Choices = {TRUE, FALSE}
+CONSTANTS NestChoices = {FALSE} InnerOptUniverse = {} InnerEndings = {} MaxNest = 0
 SPECIFICATION Spec
 INVARIANT Restored
 INVARIANT HooksRestored
